@@ -12,6 +12,7 @@ EXTENDS XDM, TLC
 
 CONSTANTS Axes, Tests, Preds, ParenPreds,
           DocSibs,    \* TRUE: documents with comment/PI siblings of the document element (lxml)
+          NsTests,    \* node tests used on the namespace axis: subset of {"*", "p", "q", "xml", "node()"}; {} = none
           Preds2      \* first predicates of two-predicate steps axis::test[p1][p2], p2 in {"1", "last()"}; {} = none
 
 VARIABLES cur
@@ -54,6 +55,19 @@ DSlashPred(ax, t, pr) ==
    /\ cur' = OpDSlashPred(cur, ax, t, pr)
    /\ UNCHANGED <<parent, kind>>
 
+(* The thirteenth axis.  In this binding every element has the same in-scope namespaces: the   *)
+(* implicit xml prefix and the prefixes p, q declared on the document element (lxml) or given   *)
+(* by the caller (xml.etree).  Namespace nodes are not part of the node universe: E/namespace::t *)
+(* is an OBSERVATION on the current state (one group of namespace nodes per element of cur, in  *)
+(* document order of the elements; nothing for other node kinds), and                           *)
+(* E/namespace::t/parent::node() leads back to the elements of cur.                              *)
+InScopePrefixes == {"xml", "p", "q"}
+NsMatch(t) == IF t \in {"*", "node()"} THEN InScopePrefixes ELSE {t} \cap InScopePrefixes
+NsObservation(t) == [x \in {y \in cur : IsElem(y)} |-> NsMatch(t)]
+NsStep(t)   == UNCHANGED <<parent, kind, cur>>
+NsParent(t) == /\ cur' = IF NsMatch(t) = {} THEN {} ELSE {x \in cur : IsElem(x)}
+               /\ UNCHANGED <<parent, kind>>
+
 (* a leading "/" : only meaningful as the first construct of a path, so it is enabled in the    *)
 (* initial context only (the harness renders it only with an empty prefix)                      *)
 Root == /\ cur = {StartNode}
@@ -70,6 +84,8 @@ Next == \/ \E ax \in Axes, t \in Tests : Step(ax, t)
         \/ \E ax \in Axes, t \in Tests, pr \in Preds : DSlashPred(ax, t, pr)
         \/ \E pr \in ParenPreds : Paren(pr)
         \/ \E ax \in Axes, t \in Tests, p1 \in Preds2, p2 \in {"1", "last()"} : StepPred2(ax, t, p1, p2)
+        \/ \E t \in NsTests : NsStep(t)
+        \/ \E t \in NsTests : NsParent(t)
         \/ Root
 
 Spec == Init /\ [][Next]_vars
